@@ -119,6 +119,20 @@ func rlRun(s rlSchedule) []rlCall {
 					call()
 					time.Sleep(window * time.Duration(s.PaceX100) / 100)
 				}
+			case "staggered":
+				// one early call, a burst shortly before it expires, a burst shortly
+				// after: a limiter that forgets too much admits up to 2*limit-1 here
+				if g == 0 {
+					call()
+					time.Sleep(window * 70 / 100)
+					for i := 0; i < s.Limit-1; i++ {
+						call()
+					}
+					time.Sleep(window * 35 / 100)
+					for i := 0; i < s.Limit+1; i++ {
+						call()
+					}
+				}
 			case "spread":
 				// goroutines start at different phases, then call at pace x window / limit
 				time.Sleep(window * time.Duration(g%8) / 8)
@@ -140,16 +154,15 @@ func rlRun(s rlSchedule) []rlCall {
 }
 
 func TestC19RateLimiter(t *testing.T) {
-	ev.Rule("C19: rapid draws (limit 1..10, window in {2,5,24,60} ms, 1..64 goroutines, arrival pattern tight/burst/paced/spread with pace 0.5x/0.9x/1.1x/2x the window); real goroutines call RateLimiter.Allow and record monotonic [before,after]; oracle = interval arithmetic: a violation is reported only if limit+1 admitted calls certainly fit inside one window, or a rejected call certainly had fewer than limit admitted calls in its preceding window; non-trivial = schedule with >=1 rejection and >=1 admission after a rejection; distinct by schedule parameters")
+	ev.Rule("C19: rapid draws (limit 1..10, window in {2,5,24,60} ms, 1..64 goroutines, arrival pattern tight/burst/paced/spread/staggered (one early call, a burst just before it expires, a burst just after) with pace 0.5x/0.9x/1.1x/2x the window); real goroutines call RateLimiter.Allow and record monotonic [before,after]; oracle = interval arithmetic: a violation is reported only if limit+1 admitted calls certainly fit inside one window, or a rejected call certainly had fewer than limit admitted calls in its preceding window; non-trivial = schedule with >=1 rejection and >=1 admission after a rejection; distinct by schedule parameters")
 	rapid.Check(t, func(t *rapid.T) {
 		s := rlSchedule{
 			Limit:      rapid.IntRange(1, 10).Draw(t, "limit"),
 			WindowMs:   rapid.SampledFrom([]int{2, 5, 24, 60}).Draw(t, "windowMs"),
 			Goroutines: rapid.SampledFrom([]int{1, 1, 2, 3, 4, 8, 16, 32, 64}).Draw(t, "goroutines"),
-			Pattern:    rapid.SampledFrom([]string{"tight", "burst", "paced", "spread"}).Draw(t, "pattern"),
+			Pattern:    rapid.SampledFrom([]string{"tight", "burst", "paced", "spread", "staggered"}).Draw(t, "pattern"),
 			PaceX100:   rapid.SampledFrom([]int{50, 90, 110, 200}).Draw(t, "paceX100"),
 		}
-		window := time.Duration(s.WindowMs) * time.Millisecond
 		// bound the schedule to roughly 4 windows of wall time
 		switch s.Pattern {
 		case "tight":
@@ -160,7 +173,13 @@ func TestC19RateLimiter(t *testing.T) {
 			s.Calls = rapid.IntRange(2, 6).Draw(t, "calls")
 		case "spread":
 			s.Calls = rapid.IntRange(2, 4*s.Limit).Draw(t, "calls")
+		case "staggered":
+			s.Calls = 2*s.Limit + 1
+			if s.WindowMs < 24 {
+				s.WindowMs = 24 // the stagger needs sleeps that are long compared with scheduling noise
+			}
 		}
+		window := time.Duration(s.WindowMs) * time.Millisecond // after all adjustments of the schedule
 		lastCase(s)
 		ev.Eval(1)
 		calls := rlRun(s)
